@@ -116,8 +116,8 @@ impl Cursor {
             Self::BeginAligned(cursor) => {
                 if distance >= 0 {
                     Ok(Self::BeginAligned(cursor + distance as usize))
-                } else if distance.abs() as usize <= *cursor {
-                    Ok(Self::BeginAligned(cursor - distance.abs() as usize))
+                } else if distance.unsigned_abs() <= *cursor {
+                    Ok(Self::BeginAligned(cursor - distance.unsigned_abs()))
                 } else {
                     Err(StamError::CursorOutOfBounds(
                         Cursor::BeginAligned(*cursor),
@@ -128,7 +128,7 @@ impl Cursor {
             Self::EndAligned(cursor) => {
                 if distance <= 0 {
                     Ok(Self::EndAligned(cursor + distance))
-                } else if distance <= cursor.abs() {
+                } else if distance as usize <= cursor.unsigned_abs() {
                     Ok(Self::EndAligned(cursor + distance))
                 } else {
                     Err(StamError::CursorOutOfBounds(
